@@ -87,8 +87,14 @@ def build(df, how, obs):
 def execute(case, obs):
     from cryocat import cryomotl as cm
 
-    order, n, nan_cells, how, wpath, seed = case
+    order, n, nan_cells, how, wpath, seed = case[:6]
+    index_kind = case[6] if len(case) > 6 else "default"
     df = table(order, n, nan_cells, seed)
+    if index_kind != "default":
+        # what sort_values / boolean filtering / iloc[::2] leave behind: row labels that are not 0..N-1 in order
+        labels = {"reversed": list(range(n - 1, -1, -1)), "gapped": [3 * i + 2 for i in range(n)],
+                  "shuffled": [(7 * i + 3) % n for i in range(n)] if n > 1 else [5]}[index_kind]
+        df.index = labels
     obs.nontrivial = (list(order) != COLS) or bool(nan_cells)
     m = build(df, how, obs)
     site_c = how
@@ -215,7 +221,20 @@ def families(tier, seed):
         coll.append((n, ()))
         coll.append((n, ((n - 1, 0), (0, 19), (n // 2, 7))))
     sp2 = Mapped(Product(few_orders, Listed(coll), CONSTRUCT, WRITE), mk)
-    extra = []
+    # hidden representation state: the same tables with a non-default row index, with and without NaN holes
+    idx_cases = []
+    for n in (2, 3, 5):
+        idx_cases.append((n, ()))
+        idx_cases.append((n, ((0, 7), (n - 1, 0))))
+        idx_cases.append((n, tuple((r, (5 * r + 1) % 20) for r in range(n))))
+
+    def mk_idx(c):
+        (order, (n, pat), how, w, ik) = c
+        return (order, n, pat, how, w, seed, ik)
+
+    sp_idx = Mapped(Product(few_orders, Listed(idx_cases), CONSTRUCT, WRITE, ["reversed", "gapped", "shuffled"]), mk_idx)
+    extra = [Family("non-default-row-index", sp_idx, execute, describe=lambda c: dict(describe(c[:6]), row_index=c[6]),
+                    expect=("file-header", "file-field-order", "file-values", "load-values", "second-generation-identical"))]
     if tier == "thorough":
         # deviation bound 2: every order reachable by two transpositions, on a reduced pattern/path alphabet
         two = [o for o in neighbourhood_swaps(base, 2)][191:]
